@@ -9,9 +9,11 @@ AgVerif.Gen.ValueTypes.dispatch.   Spec: AgVerif.Spec.EncodedValue (DEX format d
 -/
 import AgVerif.Proof.EncodedValue
 import AgVerif.Proof.EncodedValuePrint
+import AgVerif.Proof.EncodedValueCompose
 namespace AgVerif.C04
 open AgVerif.EncodedValue AgVerif.Gen.ValueTypes
-open AgVerif.Spec.EncodedValue (le sext SValue Encodes Elem Pools scalar staticInit javaLiteralValue assignable JVal)
+open AgVerif.Spec.EncodedValue (le sext SValue Encodes Elem Pools scalar staticInit javaLiteralValue assignable JVal
+  JDen declared readBack isNaN32 isNaN64)
 
 /-- the generated `VALUE_*` constants are the type codes of the format document -/
 theorem value_constants :
@@ -43,8 +45,8 @@ theorem minus_one_one_byte (P : Pools) (t : Nat) (h : t = 0x00 ∨ t = 0x02 ∨ 
     ∃ vt, decode (toCM P) [t, 0xff] = .ok (.int vt (-1), 2) := by
   rcases h with rfl | rfl | rfl | rfl <;> exact ⟨_, rfl⟩
 
-/-- a buffer that ends before the header byte, inside a uleb128 count, or before an announced element
-    is an error (struct.error), never a value -/
+/-- SAMPLES (five literal buffers) of truncated input that is an error; the general statements are
+    `truncated_array`, `truncated_byte`, `truncated_payload_reads_short_*` below -/
 theorem truncated_error (cm : CM) :
     decode cm [] = .error .struct ∧ decode cm [0x1c] = .error .struct ∧
     decode cm [0x1c, 0x01] = .error .struct ∧ decode cm [0x1d, 0x00] = .error .struct ∧
@@ -111,7 +113,100 @@ theorem print_denotes_boolean (proto : String) (b : Bool) :
 theorem print_denotes_null (proto : String) :
     (printInit proto .null).bind javaLiteralValue = some .null := rfl
 
+/-- non-finite float / double values: printed as the constants of java.lang.Float / Double, read back
+    as the same infinity / as NaN.  (FINITE float and double values are printed through Python's
+    `repr`, which is not modelled: no theorem, see `PrintProved`.) -/
+theorem print_denotes_float_nonfinite (P : Pools) (b : Nat)
+    (h : isNaN32 b = true ∨ b = 0x7f800000 ∨ b = 0xff800000) :
+    (printInit "F" (embed P (.float b))).bind (readBack "F")
+      = some (if isNaN32 b then .floatNaN else .floatBits b) :=
+  print_declared P (.float b) "F" _ rfl trivial h
+
+theorem print_denotes_double_nonfinite (P : Pools) (b : Nat)
+    (h : isNaN64 b = true ∨ b = 0x7ff0000000000000 ∨ b = 0xfff0000000000000) :
+    (printInit "D" (embed P (.double b))).bind (readBack "D")
+      = some (if isNaN64 b then .doubleNaN else .doubleBits b) :=
+  print_declared P (.double b) "D" _ rfl trivial h
+
+/-- the value ranges are not assumptions: every encoded byte/short/char/int/long value lies in the
+    range of its Java type, because the format limits value_arg -/
+theorem encoded_value_in_range (bs : List Nat) (v : SValue) (h : Encodes bs v) : InRange v :=
+  encodes_inRange bs v h
+
+/-- COMPOSED: decode → bind → print.  The static-values array of a class (`encoded_array`: uleb128
+    count `item`, then the encoded values `parts`, anything after it) with at most as many values as
+    the class has static fields (`n`): the array decodes, field `i` is bound to the `i`-th decoded
+    value, and for every value kind that has a Java field type (`declared`: byte, short, char, int,
+    long, boolean, null, float, double) — except FINITE float/double (`PrintProved`) — the initialiser
+    the decompiler prints for a field of that type reads back (Java literal + assignment conversion)
+    as exactly the encoded value.  No range hypothesis: it follows from the encoding. -/
+theorem static_init_print (P : Pools) (item : List Nat) (parts : List (List Nat × SValue))
+    (rest : List Nat) (n i : Nat) (hi : AgVerif.Spec.Leb.IsItem item) (hl : item.length ≤ 5)
+    (hv : AgVerif.Spec.Leb.unsignedValue item = some parts.length)
+    (hparts : ∀ p ∈ parts, Encodes p.1 p.2) (hn : parts.length ≤ n)
+    (p : List Nat × SValue) (hp : parts[i]? = some p) (proto : String) (den : JDen)
+    (hd : declared p.2 = some (proto, den)) (hm : PrintProved p.2) :
+    ∃ vals k, decodeArray (toCM P) (item ++ ((parts.map (·.1)).flatten ++ rest)) = .ok (vals, k) ∧
+      (bindStatics (some vals) (List.replicate n none))[i]? = some (some (embed P p.2)) ∧
+      (printInit proto (embed P p.2)).bind (readBack proto) = some den :=
+  static_init_print_aux P item parts rest n i hi hl hv hparts hn p hp proto den hd hm
+
+/-! ### truncated input, in general -/
+
+/-- an encoded_array announcing more elements than are present (any well-formed elements, any
+    surplus `k + 1`) is an error (struct.error), never a value -/
+theorem truncated_array (P : Pools) (item : List Nat) (parts : List (List Nat × SValue)) (k : Nat)
+    (hi : AgVerif.Spec.Leb.IsItem item) (hl : item.length ≤ 5)
+    (hv : AgVerif.Spec.Leb.unsignedValue item = some (parts.length + k + 1))
+    (hparts : ∀ p ∈ parts, Encodes p.1 p.2) :
+    decode (toCM P) (0x1c :: (item ++ (parts.map (·.1)).flatten)) = .error .struct :=
+  truncated_array_aux P item parts k hi hl hv hparts
+
+/-- VALUE_BYTE, any value_arg, nothing after the header: struct.error -/
+theorem truncated_byte (cm : CM) (a : Nat) : decode cm [a * 32 + 0x00] = .error .struct :=
+  truncated_byte_aux cm a
+
+/-- What the code really does with a payload shorter than value_arg + 1 for the multi-byte integer
+    types (every such type, every value_arg, every shorter payload): `buff.read` returns what is
+    left and the value is made from those bytes — NOT an error.  (Outside the format; stated so that
+    nobody reads `truncated_error` as "every truncation is rejected".) -/
+theorem truncated_payload_reads_short_signed (cm : CM) (t a : Nat) (p : List Nat)
+    (ht : t = 0x02 ∨ t = 0x04 ∨ t = 0x06) (hl : p.length ≤ a + 1) (hp : ∀ b ∈ p, b < 256) (hne : p ≠ []) :
+    decode cm ((a * 32 + t) :: p) = .ok (.int t (sext (8 * p.length) (le p)), 1 + p.length) := by
+  rcases ht with rfl | rfl | rfl
+  · exact read_short_intS cm _ a p (by omega) kind_short hl hp hne
+  · exact read_short_intS cm _ a p (by omega) kind_int hl hp hne
+  · exact read_short_intS cm _ a p (by omega) kind_long hl hp hne
+
+theorem truncated_payload_reads_short_char (cm : CM) (a : Nat) (p : List Nat)
+    (hl : p.length ≤ a + 1) (hp : ∀ b ∈ p, b < 256) :
+    decode cm ((a * 32 + 0x03) :: p) = .ok (.int 0x03 (le p : Int), 1 + p.length) :=
+  read_short_intU cm _ a p (by omega) kind_char hl hp
+
 /-! Non-vacuity -/
+-- static values [INT -1 (one byte), LONG MIN, BOOLEAN true] of a class with four static fields satisfy the
+-- hypotheses of `static_init_print` for field 1 (a long, printed `-9223372036854775808L`)
+example :
+    AgVerif.Spec.Leb.IsItem [0x03] ∧
+    AgVerif.Spec.Leb.unsignedValue [0x03] = some
+      [([0x04, 0xff], SValue.int (-1)), ([0xe6, 0, 0, 0, 0, 0, 0, 0, 0x80], SValue.long (-9223372036854775808)),
+        ([0x3f], SValue.boolean true)].length ∧
+    (∀ p ∈ [([0x04, 0xff], SValue.int (-1)), ([0xe6, 0, 0, 0, 0, 0, 0, 0, 0x80], SValue.long (-9223372036854775808)),
+        ([0x3f], SValue.boolean true)], Encodes p.1 p.2) ∧
+    declared (SValue.long (-9223372036854775808)) = some ("J", .num (-9223372036854775808)) ∧
+    PrintProved (SValue.long (-9223372036854775808)) := by
+  refine ⟨by decide, by decide, ?_, rfl, trivial⟩
+  intro p hp
+  simp only [List.mem_cons, List.not_mem_nil, or_false] at hp
+  rcases hp with rfl | rfl | rfl
+  · exact Encodes.scalar 0x04 0 [0xff] _ (by decide) (by decide) (by decide) rfl
+  · exact Encodes.scalar 0x06 7 [0, 0, 0, 0, 0, 0, 0, 0x80] _ (by decide) (by decide) (by decide) rfl
+  · exact Encodes.scalar 0x1f 1 [] _ (by decide) (by decide) (by decide) rfl
+example : (printInit "J" (.int 6 (-9223372036854775808))).bind (readBack "J")
+    = some (.num (-9223372036854775808)) := by decide
+example : printInit "F" (.float 0x7fc00001) = some "Float.NaN".toList ∧
+    printInit "D" (.double 0xfff0000000000000) = some "Double.NEGATIVE_INFINITY".toList ∧
+    printInit "F" (.float 0x3f800000) = none := by decide
 example : printInit "B" (.int 0 (-128)) = some "-0x80".toList := by decide
 example : printInit "J" (.int 6 (-9223372036854775808)) = some "-9223372036854775808L".toList := by decide
 example : javaLiteralValue "2147483648".toList = none ∧ javaLiteralValue "010".toList = none ∧
